@@ -1408,6 +1408,7 @@ mod stepper {
     pub static FIRST_BAD_STATUS: AtomicI32 = AtomicI32::new(0);
     pub static RES_FD: AtomicI32 = AtomicI32::new(-1);
     pub static TRUNCATED: AtomicBool = AtomicBool::new(false);
+    pub static NEST_SIG: AtomicI32 = AtomicI32::new(libc::SIGURG);
     pub static RES_RD: AtomicI32 = AtomicI32::new(-1);
     pub static OKS: AtomicUsize = AtomicUsize::new(0);
     pub static mut LINES: [u8; 1 << 20] = [0; 1 << 20];
@@ -1448,7 +1449,7 @@ mod stepper {
             let _ = crate::sched::HANDLER_DEPTH.try_with(|d| d.set(d.get() + 1));
             let _ = crate::sched::H_ALLOCS.try_with(|c| c.set(0));
             let _ = crate::sched::H_FREES.try_with(|c| c.set(0));
-            unsafe { libc::raise(libc::SIGURG) };
+            unsafe { libc::raise(NEST_SIG.load(Ordering::SeqCst)) };
             let _ = crate::sched::HANDLER_DEPTH.try_with(|d| d.set(d.get() - 1));
             H_ALLOC.store(crate::sched::H_ALLOCS.try_with(|c| c.get()).unwrap_or(0) as usize, Ordering::SeqCst);
             H_FREE.store(crate::sched::H_FREES.try_with(|c| c.get()).unwrap_or(0) as usize, Ordering::SeqCst);
@@ -1572,6 +1573,35 @@ fn probe_step(args: &Args) {
                 let id_y = unsafe { signal_hook::low_level::register(sig, move || { y2.fetch_add(1, Ordering::SeqCst); }) }.unwrap();
                 let _other = unsafe { signal_hook::low_level::register(libc::SIGWINCH, || {}) }.unwrap();
                 let xcount = Arc::new(AtomicUsize::new(0));
+                // C04 at instruction granularity: other code's handler (three-argument convention) is
+                // in place on SIGUSR2 before the library ever sees that signal
+                static FOREIGN_CALLS: AtomicUsize = AtomicUsize::new(0);
+                static FOREIGN_BAD: AtomicUsize = AtomicUsize::new(0);
+                extern "C" fn foreign_info(sig: c_int, info: *mut libc::siginfo_t, ctx: *mut libc::c_void) {
+                    FOREIGN_CALLS.fetch_add(1, Ordering::SeqCst);
+                    if sig != libc::SIGUSR2 || info.is_null() || ctx.is_null() || unsafe { (*info).si_signo } != libc::SIGUSR2 {
+                        FOREIGN_BAD.fetch_add(1, Ordering::SeqCst);
+                    }
+                }
+                extern "C" fn foreign_plain(sig: c_int) {
+                    FOREIGN_CALLS.fetch_add(1, Ordering::SeqCst);
+                    if sig != libc::SIGUSR2 {
+                        FOREIGN_BAD.fetch_add(1, Ordering::SeqCst);
+                    }
+                }
+                if op.starts_with("first_reg_prev") {
+                    unsafe {
+                        let mut sa: libc::sigaction = std::mem::zeroed();
+                        if op.ends_with("info") {
+                            sa.sa_sigaction = foreign_info as usize;
+                            sa.sa_flags = libc::SA_SIGINFO;
+                        } else {
+                            sa.sa_sigaction = foreign_plain as usize;
+                        }
+                        libc::sigaction(libc::SIGUSR2, &sa, std::ptr::null_mut());
+                    }
+                    NEST_SIG.store(libc::SIGUSR2, Ordering::SeqCst);
+                }
                 let mut got_sig: Vec<c_int> = Vec::with_capacity(16);
                 let mut got_raw = 0usize;
                 let mut pre_deliveries = 0usize;
@@ -1595,6 +1625,10 @@ fn probe_step(args: &Args) {
                     "register_same" => {
                         let x2 = Arc::clone(&xcount);
                         let _ = unsafe { signal_hook::low_level::register(sig, move || { x2.fetch_add(1, Ordering::SeqCst); }) };
+                    }
+                    "first_reg_prev_info" | "first_reg_prev_plain" => {
+                        let x2 = Arc::clone(&xcount);
+                        let _ = unsafe { signal_hook::low_level::register(libc::SIGUSR2, move || { x2.fetch_add(1, Ordering::SeqCst); }) };
                     }
                     "unregister" => {
                         signal_hook::low_level::unregister(id_y);
@@ -1656,6 +1690,20 @@ fn probe_step(args: &Args) {
                 let k = CHILD_STEP.load(Ordering::SeqCst);
                 let mut bad: Vec<&str> = Vec::new();
                 if H_ALLOC.load(Ordering::SeqCst) + H_FREE.load(Ordering::SeqCst) > 0 { bad.push("handler_allocated"); }
+                if op.starts_with("first_reg_prev") {
+                    // whoever handled it - the foreign handler directly (before the take-over) or the
+                    // library's dispatcher chaining to it - the foreign handler ran exactly once, with
+                    // its own calling convention; the new action at most once
+                    if FOREIGN_CALLS.load(Ordering::SeqCst) != 1 { bad.push("previous_handler_not_once"); }
+                    if FOREIGN_BAD.load(Ordering::SeqCst) != 0 { bad.push("previous_handler_wrong_arguments"); }
+                    if xcount.load(Ordering::SeqCst) > 1 { bad.push("action_twice"); }
+                    unsafe { libc::raise(libc::SIGUSR2) };
+                    if FOREIGN_CALLS.load(Ordering::SeqCst) != 2 || FOREIGN_BAD.load(Ordering::SeqCst) != 0 { bad.push("previous_handler_not_chained_afterwards"); }
+                    if xcount.load(Ordering::SeqCst) == 0 { bad.push("new_action_not_registered"); }
+                    let line = if bad.is_empty() { format!("{} ok\n", k) } else { bad.iter().map(|b| format!("{} {}\n", k, b)).collect::<Vec<_>>().join("") };
+                    child_line(&line);
+                    unsafe { libc::_exit(0) };
+                }
                 if pre.load(Ordering::SeqCst) != pre_deliveries + 1 { bad.push("registered_action_not_once"); }
                 if !flag.load(Ordering::SeqCst) { bad.push("flag_unset"); }
                 if usz.load(Ordering::SeqCst) != 77 { bad.push("usize_flag_wrong"); }
